@@ -422,14 +422,16 @@ def unchanged_per_interval(ctx, before, before_missed, h, label, fam):
                       f"{label} raised, but interval {lost[0]} that held content no longer exists ({fam})")
     f = np.asarray(cur[1], dtype=np.float64)
     e = np.asarray(cur[2], dtype=np.float64)
-    if not np.array_equal(exp_f, f, equal_nan=True):
+    from sim.oracle import chaos
+
+    if chaos() or not np.array_equal(exp_f, f, equal_nan=True):
         ctx.violation("C18/failed-op-changes-nothing", f"C18/changed-after-raise/{label}/contents",
                       f"{label} raised, but contents changed: expected vs got {first_diff(exp_f, f)} ({fam})")
-    if not np.array_equal(exp_e, e, equal_nan=True):
+    if chaos() or not np.array_equal(exp_e, e, equal_nan=True):
         ctx.violation("C18/failed-op-changes-nothing", f"C18/changed-after-raise/{label}/errors2",
                       f"{label} raised, but errors2 changed: expected vs got {first_diff(exp_e, e)} ({fam})")
     m = missed_tuple(h)
-    if not np.array_equal(np.asarray(before_missed), np.asarray(m), equal_nan=True):
+    if chaos() or not np.array_equal(np.asarray(before_missed), np.asarray(m), equal_nan=True):
         ctx.violation("C18/failed-op-changes-nothing", f"C18/changed-after-raise/{label}/missed",
                       f"{label} raised, but missed changed from {before_missed} to {m} ({fam})")
 
@@ -508,11 +510,13 @@ def execute(plan, ctx):
         if lost:
             ctx.violation("C18/twin", "C18/twin-differs/interval-missing",
                           f"the twin holds content on {lost[0]} which the node that saw invalid calls does not have ({fam})")
-        if not (np.array_equal(exp_f, np.asarray(a[1], dtype=np.float64), equal_nan=True)
-                and np.array_equal(exp_e, np.asarray(a[2], dtype=np.float64), equal_nan=True)):
+        # extra empty bins change numpy's pairwise summation order inside later operations (normalize divides by
+        # frequencies.sum()): agreement with the twin is judged to 1e-12 relative, not bit for bit
+        if not (np.allclose(exp_f, np.asarray(a[1], dtype=np.float64), rtol=1e-12, atol=0, equal_nan=True)
+                and np.allclose(exp_e, np.asarray(a[2], dtype=np.float64), rtol=1e-12, atol=0, equal_nan=True)):
             ctx.violation("C18/twin", "C18/twin-differs/contents",
                           f"node that saw invalid calls differs from its twin that received only the valid operations: "
                           f"{first_diff(exp_f, a[1])} ({fam})")
-        if not np.array_equal(np.asarray(missed_tuple(node)), np.asarray(missed_tuple(twin)), equal_nan=True):
+        if not np.allclose(np.asarray(missed_tuple(node)), np.asarray(missed_tuple(twin)), rtol=1e-12, atol=0, equal_nan=True):
             ctx.violation("C18/twin", "C18/twin-differs/missed",
                           f"missed {missed_tuple(node)} vs twin {missed_tuple(twin)} ({fam})")
